@@ -49,7 +49,7 @@ SYNC_KINDS = ["list", "tuple", "seq", "iter", "gen"]
 ASYNC_KINDS = ["agen", "aobj", "aiterable"]
 MODEL_KIND = {"list": "list", "tuple": "list", "seq": "iter", "iter": "iter", "gen": "iter",
               "agen": "aiter", "aobj": "aiter", "aiterable": "aiter"}
-KW_NAMES = ["k0", "k1", "k2", "k3", "k4", "k5", "k6", "k7"]
+KW_NAMES = ["self", "func", "function", "args", "kwargs", "awaitable", "coro", "k7"]   # names a wrapper may use itself
 
 
 # ---------------------------------------------------------------------------------------------
@@ -444,21 +444,21 @@ def make_fn(env, case):
         return c
 
     class ObjSync:
-        def __call__(self, *a, **k):
+        def __call__(self, /, *a, **k):
             return body(a, k)
 
-        def meth(self, *a, **k):
+        def meth(self, /, *a, **k):
             return body(a, k)
 
     class ObjSyncAw:
-        def __call__(self, *a, **k):
+        def __call__(self, /, *a, **k):
             return coro_of(a, k)
 
     class ObjAsync:
-        async def __call__(self, *a, **k):
+        async def __call__(self, /, *a, **k):
             return await abody(a, k)
 
-        async def meth(self, *a, **k):
+        async def meth(self, /, *a, **k):
             return await abody(a, k)
 
     def def_awobj(*a, **k):
